@@ -2,7 +2,7 @@
 """Prints the markdown table of seeded changes from /verif/seeded/*/meta.json (verified facts only)."""
 import json, glob, os, re
 rows=[]
-for d in sorted(glob.glob('/verif/seeded/C*-[mnpqr]*')):
+for d in sorted(glob.glob('/verif/seeded/C*-[mnpqrs]*')):
     mf=f'{d}/meta.json'
     if not os.path.exists(mf): continue
     m=json.load(open(mf))
